@@ -116,6 +116,8 @@ def work_random(task):
     drv = Driver()
     try:
         for i in range(start, start + count):
+            if len(ev.violations) >= 30:
+                break       # verdict settled; on a badly broken tree going on only costs time
             rnd = random.Random((seed << 32) ^ (i * 2654435761 & 0xffffffff) ^ 0xC03)
             cfg = G.Cfg(max_depth=depth, name_weight=4, scope_errors=0.04 if rnd.random() < 0.5 else 0.0,
                         soft=0.02, closures=rnd.random() < 0.5)
